@@ -685,8 +685,16 @@ var vkKinds = []string{"resA", "resA", "resB", "resB", "trans", "trans", "child"
 func vkRandomProgram(r *rand.Rand) vkScenario {
 	n := 2 + r.Intn(3)
 	var sc vkScenario
+	children := 0
 	for i := 0; i < n; i++ {
 		k := vkKinds[r.Intn(len(vkKinds))]
+		if k == "child" {
+			// each child adds a watcher goroutine that races with every closer: keep the number of
+			// interleavings the model has to enumerate per step small
+			if children++; children > 2 {
+				k = "trans"
+			}
+		}
 		var flags []string
 		switch k {
 		case "resA":
